@@ -92,6 +92,36 @@ class FmtInterp(Interp):
         return Interp.leaf_call(self, name, path, ipath, c, args, e)
 
 
+def documented_sequences():
+    """symbol sequences of rendered dual numbers shown in the repository's documentation (README, crate docs, docs/*.rst,
+    Python class docstrings), e.g. `3 + [0]ε1 + [0]ε1²` -> ("ε1", "ε1²")"""
+    import glob, os, re
+    from ..facts import REPO
+    files = [os.path.join(REPO, "README.md"), os.path.join(REPO, "src", "lib.rs")] + glob.glob(os.path.join(REPO, "docs", "*.rst")) + \
+        glob.glob(os.path.join(REPO, "src", "python", "*.rs"))
+    seqs = {}
+    num = r"(?:\[[^\]]*\]|-?\d[\d.eE+-]*)"
+    pat = re.compile(r"(%s)((?: \+ %s[^\s+]+)+)\s*$" % (num, num))
+    for f in files:
+        try:
+            lines = open(f, encoding="utf-8").read().splitlines()
+        except OSError:
+            continue
+        for i, line in enumerate(lines):
+            m = pat.search(line.rstrip())
+            if not m:
+                continue
+            parts = m.group(2).split(" + ")[1:]
+            syms = []
+            for p in parts:
+                mm = re.match(num + r"(.+)$", p)
+                if mm:
+                    syms.append(mm.group(1))
+            if syms and all("ε" in s_ or s_.startswith("v") for s_ in syms):
+                seqs.setdefault(tuple(syms), "%s:%d" % (os.path.relpath(f, REPO), i + 1))
+    return seqs
+
+
 def run(tier):
     chk = Check("C18", tier, "other",
                 "Display::fmt of each of the 8 types (and Derivative::fmt, inlined) is evaluated against an output-buffer formatter using the "
@@ -104,8 +134,17 @@ def run(tier):
                              "inner number types render by induction"],
                 trusted_base=["rustc parser/expander (FormatArgs templates)", "ndv-export", "ndvlib/interp.py"])
     F = facts.load("default")
+    rendered = {}
     for ty in TYPES:
-        display(chk, F, ty)
+        rendered[ty] = display(chk, F, ty)
+    docs = documented_sequences()
+    chk.count("documented renderings found", len(docs))
+    produced = {tuple(v) for v in rendered.values() if v}
+    for seq, where in sorted(docs.items()):
+        chk.ob("display|documented|%s" % "+".join(seq), seq in produced,
+               "a rendering shown in the documentation is produced by one of the number types (symbols in this order)", where,
+               found="documented symbols %s; types render %s" % (list(seq), sorted(map(list, produced))), required="some type renders exactly these symbols")
+    chk.floor("documented renderings found", len(docs), 3)
     if tier == "thorough":
         repr_forward(chk)
     chk.floor("Display impls", chk.analysed.get("Display impls", 0), 8)
@@ -161,13 +200,10 @@ def display(chk, F, ty):
         safe = bool(s) and s[0] not in BAD_FIRST and not s.lower().startswith(("inf", "nan"))
         chk.ob("display|%s|symbol|%s|parse-safe" % (ty, f), safe, "a number followed by the symbol parses back unambiguously", body_loc(F, body),
                found=repr(s), required="non-empty, first character not in [0-9.eE+-_ ] and not the start of inf/NaN")
-        doc = DOCUMENTED.get(ty, {}).get(f)
-        if doc is not None:
-            chk.ob("display|%s|symbol|%s|documented" % (ty, f), s == doc, "the printed symbol is the documented one", body_loc(F, body),
-                   found=repr(s), required=repr(doc))
     want_parts = [f for f, pd in g["parts"] if pd]
     chk.ob("display|%s|all-parts-have-symbols" % ty, sorted(flat) == sorted(want_parts), "every derivative part is rendered with a symbol",
            body_loc(F, body), found=sorted(flat), required=sorted(want_parts))
+    return [flat.get(f) for f in want_parts] if sorted(flat) == sorted(want_parts) else None
 
 
 def render(tokens):
